@@ -1007,5 +1007,147 @@ theorem c15_body_stall_end_to_end (S : Stacking) (L : Limits) (a t₁ : Nat)
 example : timeoutsK ⟨false, false, false⟩ ⟨400, 250, 300, 300, 200, 0⟩ ⟨accepted ⟨false, false, false⟩ ⟨400, 250, 300, 300, 200, 0⟩ 0, []⟩
     [(10, .head .noBody), (10, .head .withBody), (10, .data), (150, .complete), (200, .data)] = [450] := by decide
 
+/-! ## K. An expired wait closes the connection: it is never started over
+
+Whether an expired wait ends the connection depends on what its code hands to `handleLoop`: the loop returns
+(and closes) on `errClose` and on errors `isCloseable` accepts — and a raw time-out is deliberately NOT one of
+them.  `expiryErr` is the table of the code: every wait hands over `errClose`, except the read of a request
+body (F49, section J: answered, the loop comes round).  `runRe re n` is the loop for an arbitrary table;
+with the table of the code it is `run`.  A table that lets ANY other wait come round — `handleMITM`
+returning the raw peek error is one — gives the silent client a second period: refuted below, in general
+and by a kernel-checked witness.  L₀ as before; MITM = ⟨false, false, true⟩. -/
+
+/-- in every phase but a request body (F49) the expiry of the wait closes the connection: `handle` hands
+    `errClose` to the loop; the connection is closed at the very deadline that was armed when the phase
+    began, in that phase — and NOTHING that arrives afterwards is looked at (`e`, `rest`: the bytes of a
+    would-be second period are never read as a request head, a ClientHello, anything): in the plain
+    automaton, in the loop with the reader (whatever was sent ahead), and in the loop for every table that
+    does not list the phase -/
+theorem c15_timeout_closes_never_rearms (S : Stacking) (L : Limits) (c : Conn) (d t : Nat) (e : Ev)
+    (rest : List (Nat × Ev)) (ahead : List Ev) (hnb : c.phase ≠ .body) (hd : c.deadline = some d)
+    (hx : d ≤ max t c.anchor) :
+    loopCloses (expiryErr c.phase) = true ∧
+    run S L c ((t, e) :: rest) = .closed d c.phase c.anchor ∧
+    runK S L ⟨c, ahead⟩ ((t, e) :: rest) = .closed d c.phase c.anchor ∧
+    (∀ (re : Phase → Bool) (n : Nat), re c.phase = false →
+      runRe re n S L c ((t, e) :: rest) = .closed d c.phase c.anchor) := by
+  refine ⟨?_, ?_, ?_, ?_⟩
+  · cases hp : c.phase <;> simp_all [expiryErr, loopCloses]
+  · simp [run, settle_not_body _ hnb, hd, hx]
+  · have hk : settleK S L ⟨c, ahead⟩ (max t c.anchor) = ⟨c, ahead⟩ :=
+      settleK_of_none (bodyTimeout_not_body _ hnb)
+    simp [runK, hk, hd, hx]
+  · intro re n hre
+    exact runRe_expired_not_re n e rest hd hx hre
+
+/-- silent after the 200 to an intercepted CONNECT (at 10), a ClientHello at 610 — one and a half idle periods
+    later: closed at 410, the late bytes change nothing -/
+example : run ⟨false, false, true⟩ ⟨400, 250, 0, 300, 200, 0⟩ (accepted ⟨false, false, true⟩ ⟨400, 250, 0, 300, 200, 0⟩ 0)
+    [(10, .head .connectMitm), (610, .data), (620, .complete)] = .closed 410 .mitmPeek 10 := by decide
+
+/-- the same for a client that does nothing more at all -/
+theorem c15_timeout_closes_silent (S : Stacking) (L : Limits) (c : Conn) (d : Nat) (ahead : List Ev)
+    (hnb : c.phase ≠ .body) (hd : c.deadline = some d) :
+    run S L c [] = .closed d c.phase c.anchor ∧ runK S L ⟨c, ahead⟩ [] = .closed d c.phase c.anchor ∧
+    (∀ (re : Phase → Bool) (n : Nat), re c.phase = false → runRe re n S L c [] = .closed d c.phase c.anchor) :=
+  ⟨run_nil_some hd hnb, runK_nil_some (k := ⟨c, ahead⟩) hd hnb, fun _ n hre => runRe_nil_not_re n hd hre⟩
+
+/-- the table of the code: the request body is the only wait whose expiry lets the loop come round -/
+theorem c15_only_body_expiry_comes_round (p : Phase) : reCode p = true ↔ p = .body := by
+  cases p <;> simp [reCode, expiryErr, loopCloses]
+
+/-- the loop for the table of the code IS the automaton the implementation is compared with, whatever the
+    budget of consecutive errors (one round is the most the code's table ever takes) -/
+theorem c15_loop_table_is_code (S : Stacking) (L : Limits) (n : Nat) (c : Conn) (evs : List (Nat × Ev)) :
+    runRe reCode (n + 1) S L c evs = run S L c evs :=
+  runRe_reCode n evs c
+
+/-- NOT the code, in general: a table that lets the expiry of ANY limited phase `p` come round (and closes in
+    `idle`, as `readRequest`'s errors do) gives the silent client a second period — it is closed one idle
+    timeout AFTER the limit, in an idle phase that began when the limit expired — and never closes it at all
+    when no idle timeout is configured -/
+theorem c15_reentering_timeout_second_period (S : Stacking) (L : Limits) (re : Phase → Bool) (n : Nat)
+    (p : Phase) (s : Nat) (hre : re p = true) (hidle : re .idle = false) (hl : 0 < limitOf L p) :
+    (0 < idleLimit L → runRe re (n + 1) S L (enter L p s) []
+        = .closed (s + limitOf L p + idleLimit L) .idle (s + limitOf L p)) ∧
+    (idleLimit L = 0 → runRe re (n + 1) S L (enter L p s) [] = .stays (enter L .idle (s + limitOf L p))) := by
+  have he : enter L p s = ⟨p, s, some (s + limitOf L p)⟩ := by simp [enter, dl, hl]
+  have hidl : ∀ a, enter L .idle a = ⟨.idle, a, dl (idleLimit L) a⟩ := fun _ => rfl
+  rw [he]
+  generalize limitOf L p = lp at *
+  have h1 : lapseEnd re L (n + 1) ⟨p, s, some (s + lp)⟩ = enter L .idle (s + lp) := by
+    simp only [lapseEnd, hre, if_true]
+    exact lapseEnd_not_re n hidle
+  constructor
+  · intro hi
+    simp only [runRe, h1, hidl, dl_pos hi]
+  · intro hi
+    simp only [runRe, h1, hidl, hi, dl_zero]
+
+/-- … and the bytes that arrive in that second period are served: a first byte at `u`, after the limit and
+    before the second period is over, begins a request head (`header`, under the header limit from `u`) -/
+theorem c15_reentering_timeout_serves_late_bytes (S : Stacking) (L : Limits) (re : Phase → Bool) (n : Nat)
+    (p : Phase) (s u : Nat) (hre : re p = true) (hidle : re .idle = false) (hl : 0 < limitOf L p)
+    (h1 : s + limitOf L p ≤ u) (h2 : idleLimit L = 0 ∨ u < s + limitOf L p + idleLimit L)
+    (hh : 0 < headerLimit L) (hhd : re .header = false) :
+    runRe re (n + 1) S L (enter L p s) [(u, .data)] = .closed (u + headerLimit L) .header u := by
+  have he : enter L p s = ⟨p, s, some (s + limitOf L p)⟩ := by simp [enter, dl, hl]
+  have hidl : ∀ a, enter L .idle a = ⟨.idle, a, dl (idleLimit L) a⟩ := fun _ => rfl
+  have hnx : ∀ a, next S L (enter L .idle a) u .data = enter L .header u := fun _ => rfl
+  have hend : runRe re (n + 1) S L (enter L .header u) [] = .closed (u + headerLimit L) .header u :=
+    runRe_nil_not_re (n + 1) (by simp [enter, limitOf, dl, hh]) hhd
+  rw [he]
+  generalize limitOf L p = lp at *
+  have hm : max u s = u := by omega
+  have hlap : lapse re L (n + 1) ⟨p, s, some (s + lp)⟩ u = enter L .idle (s + lp) := by
+    simp only [lapse, hre, h1, decide_true, Bool.and_self, if_true]
+    exact lapse_not_re n u hidle
+  rcases h2 with hi | hi
+  · simp only [runRe, hm, hlap, hnx]
+    simp only [hidl, hi, dl_zero]
+    exact hend
+  · have hpos : 0 < idleLimit L := by omega
+    simp only [runRe, hm, hlap, hnx]
+    simp only [hidl, dl_pos hpos]
+    rw [if_neg (by omega)]
+    exact hend
+
+/-- kernel-checked witness for `handleMITM` handing the raw peek error to the loop (`reMitmPeek`; budget 4 as
+    in the code): intercepting listener, idle 400; the CONNECT is answered at 10 and the client is silent.
+    The code closes at 410; the variant at 810 — twice the idle timeout —, and a ClientHello sent at 610 is
+    read as a request head (closed at 860 under the header limit).  Every other stall is as in the code. -/
+theorem c15_mitm_peek_error_not_closing_refuted :
+    run ⟨false, false, true⟩ ⟨400, 250, 0, 300, 200, 0⟩ (accepted ⟨false, false, true⟩ ⟨400, 250, 0, 300, 200, 0⟩ 0)
+        [(10, .head .connectMitm)] = .closed 410 .mitmPeek 10 ∧
+    runRe reMitmPeek 4 ⟨false, false, true⟩ ⟨400, 250, 0, 300, 200, 0⟩ (accepted ⟨false, false, true⟩ ⟨400, 250, 0, 300, 200, 0⟩ 0)
+        [(10, .head .connectMitm)] = .closed 810 .idle 410 ∧
+    run ⟨false, false, true⟩ ⟨400, 250, 0, 300, 200, 0⟩ (accepted ⟨false, false, true⟩ ⟨400, 250, 0, 300, 200, 0⟩ 0)
+        [(10, .head .connectMitm), (610, .data)] = .closed 410 .mitmPeek 10 ∧
+    runRe reMitmPeek 4 ⟨false, false, true⟩ ⟨400, 250, 0, 300, 200, 0⟩ (accepted ⟨false, false, true⟩ ⟨400, 250, 0, 300, 200, 0⟩ 0)
+        [(10, .head .connectMitm), (610, .data)] = .closed 860 .header 610 ∧
+    runRe reMitmPeek 4 ⟨false, false, true⟩ ⟨400, 250, 0, 300, 200, 0⟩ (accepted ⟨false, false, true⟩ ⟨400, 250, 0, 300, 200, 0⟩ 0)
+        [(10, .head .connectMitm), (200, .data)] = .closed 500 .mitmHandshake 200 ∧
+    runRe reMitmPeek 4 ⟨false, false, true⟩ ⟨400, 250, 0, 300, 200, 0⟩ (accepted ⟨false, false, true⟩ ⟨400, 250, 0, 300, 200, 0⟩ 0)
+        [] = .closed 400 .idle 0 := by
+  decide
+
+/-- the verdict on an observed close excludes a second period: with an upper slack below the shortest period
+    a started-over wait would add (`slack + eps < period`) a close judged "true" lies before
+    `limit + period`, and a close at `limit + period` or later is judged late.  (The harness takes
+    `slack ≤ min(limit, idle timeout) − 2·eps`.) -/
+theorem c15_verdict_excludes_second_period (limit elapsed eps slack period : Nat) (hs : slack + eps < period) :
+    (holdsClose limit elapsed eps slack = true → elapsed + eps < limit + period) ∧
+    (limit + period ≤ elapsed + eps → closeVerdict limit elapsed eps slack = "false late") := by
+  constructor
+  · intro h
+    simp only [holdsClose, Bool.and_eq_true, decide_eq_true_eq] at h
+    omega
+  · intro h
+    unfold closeVerdict
+    rw [if_neg (by omega), if_pos (by omega)]
+
+example : closeVerdict 400000 800350 1000 398000 = "false late" ∧ closeVerdict 400000 400350 1000 398000 = "true" := by
+  decide
+
 end C15
 end FwdVerif
